@@ -17,10 +17,13 @@ from .lib.xarray_ import Variable, XDataArray, XDataset
 PathEnd = core.PathEnd
 
 
-def new_interp() -> Interp:
+def new_interp(use=()) -> Interp:
+    """``use``: keys (module, qualname) of sidecar contracts to apply at call sites (modular verification);
+    every other emsarray callee is executed symbolically (inlined)."""
     it = Interp(libs=stdlib.make_libs())
-    from .contracts_registry import install
-    install(it)
+    if use:
+        from .contracts_registry import install
+        install(it, only=set(use))
     return it
 
 
